@@ -46,6 +46,35 @@ class DesignateClassPackages(ContainerHandlerInterface):
         else:
             self.group_by_filenames()
 
+        if structure_style in (StructureStyle.NAMESPACES, StructureStyle.FILENAMES):
+            self.validate_strong_components()
+
+    def validate_strong_components(self) -> None:
+        """Strongly connected classes have to live in the same module.
+
+        Modules can't import each other, the generated classes would
+        reference names that are never imported.
+
+        Raises:
+            CodegenError: If classes that depend on each other
+                are designated to different modules
+        """
+        for group in self.strongly_connected_classes():
+            if len(group) < 2:
+                continue
+
+            modules = {
+                f"{obj.package}.{obj.module}"
+                for obj in self.container
+                if obj.qname in group
+            }
+            if len(modules) > 1:
+                raise CodegenError(
+                    "Found strongly connected types in different modules, "
+                    "switch to another `--structure-style`",
+                    modules=sorted(modules),
+                )
+
     def group_by_filenames(self) -> None:
         """Group classes by their schema file location.
 
